@@ -123,21 +123,24 @@ fn c18_enums_all() {
     assert!(b4 == old);
 }
 
-/// write_command / write_raw put exactly opcode + bytes on the bus
+/// write_command / write_raw put exactly opcode + bytes on the bus (loop-free today; the unwinding bound only turns a change that
+/// introduces a copy loop into a verdict or an unwinding failure instead of a time-out)
 #[kani::proof]
+#[kani::unwind(30)]
 fn c18_write_raw_passthrough() {
     let clock = Clock::new();
     let mut di: RecIface<u8, 0> = RecIface::new(&clock);
     let instr: u8 = kani::any();
-    let p: [u8; 8] = kani::any();
+    // up to 24 parameter bytes (longer than any buffer the crate uses internally); the recorder keeps the first 8 and the length
+    let p: [u8; 24] = kani::any();
     let n: usize = kani::any();
-    kani::assume(n <= 8);
+    kani::assume(n <= 24);
     assert!(di.write_raw(instr, &p[..n]).is_ok());
     let c = di.cmd(0);
-    assert!(di.ncmd == 1 && c.op == instr && c.len == n);
+    kani::assert(di.ncmd == 1 && c.op == instr && c.len == n, "C18: write_raw must pass the instruction and ALL parameter bytes through");
     let i: usize = kani::any();
-    kani::assume(i < n);
-    assert!(c.p[i] == p[i]);
+    kani::assume(i < n && i < 8);
+    kani::assert(c.p[i] == p[i], "C18: write_raw parameter bytes in order");
     let (s, e): (u16, u16) = (kani::any(), kani::any());
     assert!(di.write_command(SetColumnAddress::new(s, e)).is_ok());
     let c = di.cmd(1);
